@@ -113,15 +113,16 @@ def pos_stream(tier, q, t, mode='full'):
 
 PROPS['C01'] = dict(
     coq_crosscheck=True,
-    coq_targets=['Proofs/GenWF.vo', 'Proofs/GenWFBoard.vo', 'Proofs/StatusModel.vo'],
-    prop_files=['C01a'],
+    coq_targets=['Proofs/GenWF.vo', 'Proofs/GenWFBoard.vo', 'Proofs/StatusModel.vo', 'Proofs/GenSafeMain.vo', 'Proofs/GenKingMain.vo', 'Proofs/GenCastleMain.vo', 'Proofs/GenEpMain.vo', 'Proofs/GenEpOne.vo', 'Proofs/GenPseudoMain.vo', 'Proofs/GenAsmMain.vo', 'Proofs/GenAsmFinal.vo'],
+    prop_files=['C01a', 'C01'],
     scope='see theorem list; the full refinement statement is kept as C01_full',
     streams=lambda tier: [pos_stream(tier, 14, 900, 'full')] + ([dict(stages=[H('endgame', 1), D('pos')], shards=16, seed_off=9)] if tier == 'thorough' else []),
     tags=['moves', 'oracle_moves', 'oracle_dup', 'legal_query.*', 'legal_quick.*', 'len0', 'len_vs_count', 'enumerate_moves', 'overflow', 'size_hint', 'obs_ch', 'obs_pin'] + COMMON_MODEL_TAGS,
     rule=POS_RULE + '; every 16th position additionally runs Board::legal on all 20480 triples',
 )
 PROPS['C02'] = dict(
-    coq_targets=['Proofs/MakeMoveTwin.vo', 'Proofs/ApplySpecLib.vo', 'Proofs/ApplySpec.vo', 'Proofs/ApplySpecEp.vo', 'Proofs/ApplySpecExamples.vo'],
+    coq_targets=['Proofs/MakeMoveTwin.vo', 'Proofs/ApplySpecLib.vo', 'Proofs/ApplySpec.vo', 'Proofs/ApplySpecEp.vo', 'Proofs/ApplySpecExamples.vo', 'Proofs/StepShape.vo', 'Proofs/StepApply.vo', 'Proofs/StepModel.vo', 'Proofs/StepClean.vo', 'Proofs/StepGeom.vo', 'Proofs/StepLink.vo', 'Proofs/StepPass.vo', 'Proofs/StepHash.vo', 'Proofs/StepClosed.vo', 'Proofs/StepExamples.vo', 'Proofs/StepMain.vo', 'Proofs/StepCache.vo', 'Proofs/StepCanon.vo', 'Proofs/StepMain2.vo'],
+    prop_files=['C02', 'C02b'],
     scope='see theorem list',
     streams=lambda tier: [pos_stream(tier, 14, 900, 'succ')],
     tags=['succ_model.*', 'succ_flags', 'succ_parse', 'succ_ch', 'succ_pin', 'succ_pcs', 'succ_col', 'succ_comb', 'succ_hash', 'oracle_apply', 'oracle_ep'] + COMMON_MODEL_TAGS,
@@ -157,7 +158,7 @@ PROPS['C05'] = dict(
 )
 PROPS['C08'] = dict(
     coq_crosscheck=True,
-    coq_targets=[],
+    coq_targets=['Proofs/StepShape.vo', 'Proofs/StepApply.vo', 'Proofs/StepModel.vo', 'Proofs/StepClean.vo', 'Proofs/StepGeom.vo', 'Proofs/StepLink.vo', 'Proofs/StepPass.vo', 'Proofs/StepHash.vo', 'Proofs/StepClosed.vo', 'Proofs/StepExamples.vo', 'Proofs/StepMain.vo', 'Proofs/StepCache.vo', 'Proofs/StepCanon.vo', 'Proofs/StepMain2.vo'],
     scope='see theorem list',
     streams=lambda tier: [pos_stream(tier, 14, 900, 'succ')],
     tags=['obs_hash', 'succ_hash', 'succfs_hash', 'null_hash', 'nullfs_hash', 'reparse', 'succ_flags'] + COMMON_MODEL_TAGS,
